@@ -157,6 +157,22 @@ ADDED4 = {
 }
 for k, v in ADDED4.items():
     CHECKS[k]["text"] += v
+ADDED5 = {
+ "C01": " Round 5: the hash-taking constructors use the hash only through len / copy (every hash of the right length is accepted); big-integer bytes in the root package are padded before use.",
+ "C02": " Round 5 (clauses shared with C01, filed here too): IsForNet compares the stored field with the Params field the constructors read; the raw public-key arm accepts exactly the curve package's two key lengths.",
+ "C04": " Round 5: Neuter refuses a key only on chaincfg's answer for its version bytes.",
+ "C05": " Round 5: String and NewKeyFromString write nothing reachable from the key or their arguments (a bytes.Buffer built over a key slice counts as writing it); every minimal-length big-integer encoding in hdkeychain is padded before use.",
+ "C06": " Round 5: NewWIF refuses for its network argument only.",
+ "C10": " Round 5: every input's spent outpoint is tested in the iteration that looks at that input; the transaction id used is the wrapped message's own hash (C16's memo clauses for bchutil.Tx).",
+ "C11": " Round 5: the builders' leaves are block.Transactions(), whose slot k wraps transaction k (C16's index clause).",
+ "C12": " Round 5: the extractor's width function, right-child guard and recursion tuple agree with the builders' (C11's shape clauses for the extractor).",
+ "C13": " Round 5: the loop that fills the hash strategy's index is left only on the bit reader's error result and every value read is inserted.",
+ "C14": " Round 5: the builder keeps its own copy of every entry, and every element handed to the filter constructor comes out of a range over the de-duplicating map.",
+ "C16": " Round 5: no function stores through a *chainhash.Hash it did not allocate (the hash accessors hand out pointers into the memos); a constructor that decodes the message from its byte argument caches only the part the decoder consumed (defect F14, fixed).",
+ "C20": " Round 5: an exported self-locking method writes nothing its arguments point to outside the critical section.",
+}
+for k, v in ADDED5.items():
+    CHECKS[k]["text"] += v
 CHECKS["C08"]["text"] = CHECKS["C08"]["text"].replace("For all 73 in-repo functions", "For all in-repo functions").replace("(5 named exceptions, each with a premise the prover still checks)", "(named exceptions, each with a premise the prover still checks)")
 
 CHECKS["C17"] = dict(
